@@ -742,7 +742,11 @@ impl MemBalancerTrigger {
         let pending_pages = self.pending_pages.load(Ordering::SeqCst);
 
         // This is the optimal heap limit due to mem balancer. We will need to clamp the value to the defined min/max range.
-        let optimal_heap = live + e as usize + extra_reserve + pending_pages;
+        // Saturating: `e as usize` saturates for huge rates and the page counts are unbounded `usize`s.
+        let optimal_heap = live
+            .saturating_add(e as usize)
+            .saturating_add(extra_reserve)
+            .saturating_add(pending_pages);
         trace!(
             "optimal = live {} + sqrt(live) {} + extra {}",
             live,
